@@ -233,7 +233,39 @@ func TestVerifC04ECS(t *testing.T) {
 				}
 			}
 		}, func(c c04eCase) []vrt.Finding { return c04eRun(r, c) })
+		// An upstream that echoes a MALFORMED ECS option with an otherwise
+		// cacheable, subnet-specific answer ("depbad."): whatever the cache
+		// does with such an exchange, a later client of another region must
+		// be answered as by a fresh cache.
+		bad := []*ecsQuery{
+			q(c04X1, "depbad.", dns.TypeA, dns.ClassINET, false, false, ""),
+			q(c04Y1, "depbad.", dns.TypeA, dns.ClassINET, false, false, ""),
+			q(c04X1, "dep.", dns.TypeA, dns.ClassINET, false, false, ""),
+			q(c04Y1, "depbad.", dns.TypeA, dns.ClassINET, false, false, "10.1.3.0/24"),
+		}
+		vrt.Part(r, "ecs-malformed-echo", func(emit func(c04bCase)) {
+			vrt.Sequences(len(bad), 2, vrt.Pick(r, 2, 3), func(seq []int) { emit(c04bCase{Events: append([]int{}, seq...)}) })
+		}, func(c c04bCase) []vrt.Finding {
+			rig := ecsNewRig("ok", false)
+			for i, ei := range c.Events {
+				resp, _, err := rig.query(*bad[ei], uint16(0x100+i))
+				fresp, _, ferr := ecsNewRig("ok", false).query(*bad[ei], uint16(0x100+i))
+				r.Trans(2)
+				got, want := fmt.Sprintf("err=%v %s ecs=%s", err != nil, vdns.Canon(resp, false), ecsRespOpt(resp)), fmt.Sprintf("err=%v %s ecs=%s", ferr != nil, vdns.Canon(fresp, false), ecsRespOpt(fresp))
+				if got != want {
+					return vrt.F("ecs-malformed-echo/cached-differs-from-fresh", "query %+v after %v:\n   warm : %s\n   fresh: %s", *bad[ei], c.Events[:i], got, want)
+				}
+				r.State(fmt.Sprint(c.Events[:i+1], got))
+			}
+			r.Class("malformed-echo")
+
+			return nil
+		})
 	})
 	r.Finish()
 	os.Exit(0)
+}
+
+type c04bCase struct {
+	Events []int `json:"events"`
 }
